@@ -463,6 +463,32 @@ class PrefixVerifiedRev(PrefixVerified):
         return "PrefixVerifiedRev(k=%d)" % self.k
 
 
+from comb_spec_searcher.typing import CombinatorialClassType, CombinatorialObjectType  # noqa: E402
+
+
+class GenericVerified(VerificationStrategy[CombinatorialClassType, CombinatorialObjectType]):
+    """A user strategy that is still generic, so that GenericVerified[WC, W](k) is a legal way to create it."""
+
+    def __init__(self, k=1, ignore_parent=True):
+        self.k = k
+        super().__init__(ignore_parent=ignore_parent)
+
+    def verified(self, c):
+        return len(c.prefix) >= self.k
+
+    def formal_step(self):
+        return "generic verified"
+
+    def to_jsonable(self):
+        d = super().to_jsonable()
+        d["k"] = self.k
+        return d
+
+    @classmethod
+    def from_dict(cls, d):
+        return cls(**d)
+
+
 class EmptyPrefixVerified(Simple, VerificationStrategy[WC, W]):
     """Verifies the classes with empty prefix by brute force (no pack): used to build universes in
     which other classes are only reachable through reverse rules."""
